@@ -997,6 +997,14 @@ Section Column.
 
   Definition col_shape (ds : list dbval) : nshape := fold_right (fun x acc => merge (shape_of x) acc) NSnone ds.
 
+  (** a list constructor gives its elements one type first (inside out), before the column does *)
+  Fixpoint lun (d : dbval) : dbval :=
+    match d with
+    | DList l => let l' := map lun l in DList (map (unify (col_shape l')) l')
+    | DStruct fs => DStruct (map_snd lun fs)
+    | _ => d
+    end.
+
   Definition finish (ty : option sty) (d : dbval) : option pyval :=
     match (match ty with Some t => cast cleaf t d | None => Some d end) with
     | None => None
@@ -1007,7 +1015,8 @@ Section Column.
   Definition col_pipeline (ty : option sty) (vs : list pyval) : list (option pyval) :=
     match mapo (eval eleaf) (map (lit_top lch fch) vs) with
     | None => map (fun _ => None) vs
-    | Some ds =>
+    | Some ds0 =>
+        let ds := map lun ds0 in
         let sh := col_shape ds in
         match mapo (fun d => finish ty (unify sh d)) ds with
         | Some rs => map Some rs
@@ -1049,6 +1058,23 @@ Section NshapeInd.
     end.
 End NshapeInd.
 
+Section DbvalInd.
+  Variable P : dbval -> Prop.
+  Hypothesis Hleaf : forall d, match d with DList _ | DStruct _ => True | _ => P d end.
+  Hypothesis Hlist : forall l, Forall P l -> P (DList l).
+  Hypothesis Hstruct : forall fs, Forall (fun kv => P (snd kv)) fs -> P (DStruct fs).
+  Fixpoint dbval_rect' (d : dbval) : P d :=
+    match d as d0 return P d0 with
+    | DList l => Hlist l ((fix go (l : list dbval) : Forall P l :=
+                             match l with [] => Forall_nil _ | x :: r => Forall_cons _ (dbval_rect' x) (go r) end) l)
+    | DStruct fs => Hstruct fs ((fix go (l : list (ustr * dbval)) : Forall (fun kv => P (snd kv)) l :=
+                             match l with [] => Forall_nil _ | x :: r => Forall_cons _ (dbval_rect' (snd x)) (go r) end) fs)
+    | DNull => Hleaf DNull | DBool b => Hleaf (DBool b) | DInt z => Hleaf (DInt z) | DDec f => Hleaf (DDec f)
+    | DDbl f => Hleaf (DDbl f) | DFlt f => Hleaf (DFlt f) | DStr s => Hleaf (DStr s) | DBlob b => Hleaf (DBlob b)
+    | DDate x => Hleaf (DDate x) | DTs x => Hleaf (DTs x) | DTsTz x => Hleaf (DTsTz x)
+    end.
+End DbvalInd.
+
 Lemma lookup_forallb {A} (p : A -> bool) k (fs : list (ustr * A)) x :
   forallb (fun kv => p (snd kv)) fs = true -> lookup k fs = Some x -> p x = true.
 Proof.
@@ -1071,6 +1097,109 @@ Proof.
     apply Hx; [exact Ha1|]. exact (lookup_forallb real_free k ys y Hb L).
 Qed.
 
+(** no REAL value anywhere *)
+Fixpoint flt_free (d : dbval) : bool :=
+  match d with
+  | DFlt _ => false
+  | DList l => forallb flt_free l
+  | DStruct fs => forallb (fun kv => flt_free (snd kv)) fs
+  | _ => true
+  end.
+
+(** DECIMAL numerals read as the DOUBLE they denote: what a CAST to DOUBLE cannot tell apart *)
+Fixpoint dn (d : dbval) : dbval :=
+  match d with
+  | DDec f => DDbl f
+  | DList l => DList (map dn l)
+  | DStruct fs => DStruct (map_snd dn fs)
+  | _ => d
+  end.
+
+Lemma shape_real_free : forall d, flt_free d = true -> real_free (shape_of d) = true.
+Proof.
+  apply (dbval_rect' (fun d => flt_free d = true -> real_free (shape_of d) = true)).
+  - intro d. destruct d; try exact I; try (intros; reflexivity). intro H; discriminate.
+  - intros l IH H. cbn [flt_free] in H. cbn [shape_of real_free].
+    induction IH as [|x r Hx _ IHr]; [reflexivity|].
+    cbn [forallb] in H. apply andb_true_iff in H. destruct H as [H1 H2].
+    cbn [fold_right]. apply merge_real_free; [exact (Hx H1)|exact (IHr H2)].
+  - intros fs IH H. cbn [flt_free] in H. cbn [shape_of real_free].
+    induction IH as [|[k x] r Hx _ IHr]; [reflexivity|].
+    cbn [forallb snd] in H. apply andb_true_iff in H. destruct H as [H1 H2]. cbn [snd] in Hx.
+    cbn [map_snd forallb snd]. fold (@map_snd ustr _ _ shape_of). rewrite (Hx H1). exact (IHr H2).
+Qed.
+
+Lemma col_shape_real_free : forall ds, forallb flt_free ds = true -> real_free (col_shape ds) = true.
+Proof.
+  induction ds as [|d r IH]; [reflexivity|]. cbn [forallb]. intro H. apply andb_true_iff in H. destruct H as [H1 H2].
+  unfold col_shape. cbn [fold_right]. apply merge_real_free; [exact (shape_real_free d H1)|exact (IH H2)].
+Qed.
+
+Section Unify.
+  Variable round32 : fval -> fval.
+
+  Lemma unify_ok : forall d s, flt_free d = true -> real_free s = true ->
+    flt_free (unify round32 s d) = true /\ dn (unify round32 s d) = dn d.
+  Proof.
+    apply (dbval_rect' (fun d => forall s, flt_free d = true -> real_free s = true ->
+                            flt_free (unify round32 s d) = true /\ dn (unify round32 s d) = dn d)).
+    - intro d. destruct d; try exact I; try (intros s0 H0 _; split; [exact H0|reflexivity]).
+      + intros s _ Hr. cbn [unify]. destruct s as [|r dd| |]; try (split; reflexivity).
+        destruct r, dd; try discriminate; split; reflexivity.
+      + intros s0 H0 _. discriminate.
+    - intros l IH s H Hr. cbn [unify]. destruct s as [| |s'|]; try (split; [exact H|reflexivity]).
+      cbn [real_free] in Hr. cbn [flt_free] in H. rewrite Forall_forall in IH. rewrite forallb_forall in H.
+      split.
+      + cbn [flt_free]. apply forallb_forall. intros y Hy. apply in_map_iff in Hy. destruct Hy as [x [E Hx]]. subst y.
+        apply (IH x Hx s' (H x Hx) Hr).
+      + cbn [dn]. f_equal. rewrite map_map. apply map_ext_in. intros x Hx. apply (IH x Hx s' (H x Hx) Hr).
+    - intros fs IH s H Hr. cbn [unify]. destruct s as [| | |ss]; try (split; [exact H|reflexivity]).
+      cbn [real_free] in Hr. cbn [flt_free] in H.
+      assert (G : forall k x, In (k, x) fs ->
+                  flt_free (match lookup k ss with Some s' => unify round32 s' x | None => x end) = true /\
+                  dn (match lookup k ss with Some s' => unify round32 s' x | None => x end) = dn x).
+      { intros k x Hin. rewrite Forall_forall in IH. rewrite forallb_forall in H.
+        destruct (lookup k ss) as [s'|] eqn:L.
+        - apply (IH (k, x) Hin s' (H (k, x) Hin)). exact (lookup_forallb real_free k ss s' Hr L).
+        - split; [exact (H (k, x) Hin)|reflexivity]. }
+      clear IH H. split.
+      + cbn [flt_free]. induction fs as [|[k x] r IHr]; [reflexivity|].
+        cbn [map forallb fst snd]. rewrite (proj1 (G k x (or_introl eq_refl))). cbn [andb].
+        apply IHr. intros k2 x2 H2. apply G. right. exact H2.
+      + cbn [dn]. f_equal. induction fs as [|[k x] r IHr]; [reflexivity|].
+        cbn [map map_snd fst snd]. fold (@map_snd ustr _ _ dn). rewrite (proj2 (G k x (or_introl eq_refl))).
+        f_equal. apply IHr. intros k2 x2 H2. apply G. right. exact H2.
+  Qed.
+
+  Lemma lun_ok : forall d, flt_free d = true -> flt_free (lun round32 d) = true /\ dn (lun round32 d) = dn d.
+  Proof.
+    apply (dbval_rect' (fun d => flt_free d = true -> flt_free (lun round32 d) = true /\ dn (lun round32 d) = dn d)).
+    - intro d. destruct d; try exact I; intros H0; split; try exact H0; reflexivity.
+    - intros l IH H. cbn [flt_free] in H. cbn [lun]. rewrite Forall_forall in IH. rewrite forallb_forall in H.
+      assert (F : forallb flt_free (map (lun round32) l) = true).
+      { apply forallb_forall. intros y Hy. apply in_map_iff in Hy. destruct Hy as [x [E Hx]]. subst y. apply (IH x Hx (H x Hx)). }
+      pose proof (col_shape_real_free _ F) as Hr.
+      set (sh := col_shape (map (lun round32) l)) in *. rewrite forallb_forall in F.
+      split.
+      + cbn [flt_free]. apply forallb_forall. intros y Hy. apply in_map_iff in Hy. destruct Hy as [x [E Hx]]. subst y.
+        apply (unify_ok x sh (F x Hx) Hr).
+      + cbn [dn]. f_equal. rewrite !map_map. apply map_ext_in. intros x Hx.
+        rewrite (proj2 (unify_ok (lun round32 x) sh (F _ (in_map _ _ _ Hx)) Hr)). apply (IH x Hx (H x Hx)).
+    - intros fs IH H. cbn [flt_free] in H. cbn [lun]. rewrite Forall_forall in IH. rewrite forallb_forall in H.
+      split.
+      + cbn [flt_free]. induction fs as [|[k x] r IHr]; [reflexivity|].
+        cbn [map_snd forallb snd]. fold (@map_snd ustr _ _ (lun round32)).
+        pose proof (proj1 (IH (k, x) (or_introl eq_refl) (H (k, x) (or_introl eq_refl)))) as E1. cbn [snd] in E1.
+        rewrite E1. cbn [andb].
+        apply IHr; intros y Hy; [apply IH|apply H]; right; exact Hy.
+      + cbn [dn]. f_equal. induction fs as [|[k x] r IHr]; [reflexivity|].
+        cbn [map_snd]. fold (@map_snd ustr _ _ (lun round32)). fold (@map_snd ustr _ _ dn).
+        pose proof (proj2 (IH (k, x) (or_introl eq_refl) (H (k, x) (or_introl eq_refl)))) as E2. cbn [snd] in E2.
+        rewrite E2.
+        f_equal. apply IHr; intros y Hy; [apply IH|apply H]; right; exact Hy.
+  Qed.
+End Unify.
+
 Fixpoint nanfree (v : pyval) : bool :=
   match v with
   | PFloat FNaN => false
@@ -1079,36 +1208,24 @@ Fixpoint nanfree (v : pyval) : bool :=
   | _ => true
   end.
 
-Lemma shape_D0_real_free : forall v, nanfree v = true -> real_free (shape_of (D0 v)) = true.
+Lemma D0_flt_free : forall v, nanfree v = true -> flt_free (D0 v) = true.
 Proof.
-  apply (pyval_rect' (fun v => nanfree v = true -> real_free (shape_of (D0 v)) = true)); try (intros; reflexivity).
+  apply (pyval_rect' (fun v => nanfree v = true -> flt_free (D0 v) = true)); try (intros; reflexivity).
   - intros f H. destruct f as [|n|b e]; [discriminate|reflexivity|destruct e; reflexivity].
   - intros us tz _. destruct tz; reflexivity.
-  - intros l IH H. cbn [nanfree] in H. cbn [D0 shape_of real_free].
-    induction IH as [|x r Hx _ IHr]; [reflexivity|].
-    cbn [forallb] in H. apply andb_true_iff in H. destruct H as [H1 H2].
-    cbn [map fold_right]. apply merge_real_free; [exact (Hx H1)|exact (IHr H2)].
-  - intros fs IH H. cbn [nanfree] in H. cbn [D0 shape_of real_free].
+  - intros l IH H. cbn [nanfree] in H. cbn [D0 flt_free]. rewrite Forall_forall in IH. rewrite forallb_forall in H.
+    apply forallb_forall. intros y Hy. apply in_map_iff in Hy. destruct Hy as [x [E Hx]]. subst y. apply (IH x Hx (H x Hx)).
+  - intros fs IH H. cbn [nanfree] in H. cbn [D0 flt_free].
     induction IH as [|[k x] r Hx _ IHr]; [reflexivity|].
     cbn [forallb snd] in H. apply andb_true_iff in H. destruct H as [H1 H2]. cbn [snd] in Hx.
-    cbn [map_snd forallb snd]. fold (@map_snd ustr _ _ D0). fold (@map_snd ustr _ _ shape_of).
-    rewrite (Hx H1). exact (IHr H2).
-Qed.
-
-Lemma col_shape_real_free : forall vs, forallb nanfree vs = true -> real_free (col_shape (map D0 vs)) = true.
-Proof.
-  induction vs as [|v r IH]; [reflexivity|]. cbn [forallb]. intro H. apply andb_true_iff in H. destruct H as [H1 H2].
-  unfold col_shape. cbn [map fold_right]. apply merge_real_free; [exact (shape_D0_real_free v H1)|exact (IH H2)].
-Qed.
-
-Lemma mapo_ext_in {A B} (f g : A -> option B) l : (forall x, In x l -> f x = g x) -> mapo f l = mapo g l.
-Proof.
-  induction l as [|x r IH]; intro H; [reflexivity|]. cbn [mapo]. fold (mapo f). fold (mapo g).
-  rewrite (H x (or_introl eq_refl)), IH; [reflexivity|]. intros y Hy. apply H. right. exact Hy.
+    cbn [map_snd forallb snd]. fold (@map_snd ustr _ _ D0). rewrite (Hx H1). exact (IHr H2).
 Qed.
 
 Lemma mapo_map {A B C} (f : B -> option C) (g : A -> B) l : mapo f (map g l) = mapo (fun x => f (g x)) l.
 Proof. induction l as [|x r IH]; [reflexivity|]. cbn [map mapo]. fold (mapo f). fold (mapo (fun x => f (g x))). rewrite IH. reflexivity. Qed.
+
+Lemma lookup_dn k (gs : list (ustr * dbval)) : lookup k (map_snd dn gs) = option_map dn (lookup k gs).
+Proof. apply lookup_map_snd. Qed.
 
 Section ColumnRoundtrip.
   Variable eleaf : lit -> option dbval.
@@ -1117,117 +1234,102 @@ Section ColumnRoundtrip.
   Variable round32 : fval -> fval.
   Hypothesis ENV : env_ok eleaf cleaf pleaf.
 
-  Definition U (ss : list (ustr * nshape)) (k : ustr) (d : dbval) : dbval :=
-    match lookup k ss with Some s' => unify round32 s' d | None => d end.
-
-  Lemma lookup_unified ss k (fs : list (ustr * pyval)) :
-    lookup k (map (fun kv : ustr * dbval => (fst kv, match lookup (fst kv) ss with
-                                              | Some s' => unify round32 s' (snd kv)
-                                              | None => snd kv end)) (map_snd D0 fs))
-    = option_map (fun x => U ss k (D0 x)) (lookup k fs).
+  (** CAST cannot tell a REAL-free engine value from the value's own literal when they agree up to reading
+      DECIMAL numerals as DOUBLE *)
+  Lemma cast_equiv : forall v t d, supp v = true -> fits v t = true -> nanfree v = true ->
+    flt_free d = true -> dn d = dn (D0 v) -> cast cleaf t d = Some (D1 v).
   Proof.
-    induction fs as [|[k' x] r IH]; [reflexivity|].
-    cbn [map_snd map lookup fst snd]. fold (@map_snd ustr _ _ D0).
-    destruct (ueqb k k') eqn:E; [|exact IH]. apply ueqb_eq in E. subst k'. reflexivity.
-  Qed.
-
-  (** for a value without NaN in a column whose common shape has no REAL, unification changes nothing that the
-      CAST to the column type does not undo *)
-  Lemma cast_unify : forall v s t, real_free s = true -> nanfree v = true -> supp v = true -> fits v t = true ->
-    cast cleaf t (unify round32 s (D0 v)) = Some (D1 v).
-  Proof.
-    apply (pyval_rect' (fun v => forall s t, real_free s = true -> nanfree v = true -> supp v = true -> fits v t = true ->
-                                  cast cleaf t (unify round32 s (D0 v)) = Some (D1 v))).
-    - intros s t _ _ _ _. destruct t; reflexivity.
-    - intros b s t _ _ Hs H. exact (cast_nested _ _ _ ENV (PBool b) t Hs H).
-    - intros z s t _ _ Hs H. exact (cast_nested _ _ _ ENV (PInt z) t Hs H).
-    - intros f s t Hr Hn Hs H. destruct t; try discriminate. destruct f as [|n|b e]; try discriminate.
-      cbn [D0]. destruct e.
-      + cbn [unify cast]. apply (c_dbl _ _ _ ENV).
-      + cbn [unify]. destruct s as [|r d| |]; try (cbn [cast]; apply (c_dec _ _ _ ENV)).
-        destruct r, d; try discriminate; cbn [cast]; first [apply (c_dbl _ _ _ ENV) | apply (c_dec _ _ _ ENV)].
-    - intros f s t _ _ Hs _. discriminate.
-    - intros x s t _ _ Hs H. exact (cast_nested _ _ _ ENV (PStr x) t Hs H).
-    - intros x s t _ _ Hs H. exact (cast_nested _ _ _ ENV (PBytes x) t Hs H).
-    - intros x s t _ _ Hs H. exact (cast_nested _ _ _ ENV (PDate x) t Hs H).
-    - intros us tz s t _ _ Hs H. destruct tz; exact (cast_nested _ _ _ ENV _ t Hs H).
+    apply (pyval_rect' (fun v => forall t d, supp v = true -> fits v t = true -> nanfree v = true ->
+                                  flt_free d = true -> dn d = dn (D0 v) -> cast cleaf t d = Some (D1 v))).
+    - intros t d _ _ _ _ E. destruct d; try discriminate. destruct t; reflexivity.
+    - intros b t d Hs Hf _ _ E. destruct d; try discriminate. inversion E; subst. exact (cast_nested _ _ _ ENV (PBool b) t Hs Hf).
+    - intros z t d Hs Hf _ _ E. destruct d; try discriminate. inversion E; subst. exact (cast_nested _ _ _ ENV (PInt z) t Hs Hf).
+    - intros f t d Hs Hf Hn _ E. destruct t; try discriminate. destruct f as [|n|b e]; try discriminate.
+      assert (E' : dn d = DDbl (FFin b e)) by (rewrite E; destruct e; reflexivity).
+      destruct d; try discriminate; inversion E'; subst; cbn [cast D1]; [apply (c_dec _ _ _ ENV)|apply (c_dbl _ _ _ ENV)].
+    - intros f t d Hs _ _ _ _. discriminate.
+    - intros s t d Hs Hf _ _ E. destruct d; try discriminate. inversion E; subst. exact (cast_nested _ _ _ ENV (PStr s) t Hs Hf).
+    - intros b t d Hs Hf _ _ E. destruct d; try discriminate. inversion E; subst. exact (cast_nested _ _ _ ENV (PBytes b) t Hs Hf).
+    - intros x t d Hs Hf _ _ E. destruct d; try discriminate. inversion E; subst. exact (cast_nested _ _ _ ENV (PDate x) t Hs Hf).
+    - intros us tz t d Hs Hf _ _ E. destruct tz; destruct d; try discriminate; inversion E; subst;
+        exact (cast_nested _ _ _ ENV (PTs us _) t Hs Hf).
     - (* list *)
-      intros l IH s t Hr Hn Hs H.
-      destruct s as [| |s'|]; try exact (cast_nested _ _ _ ENV (PList l) t Hs H).
-      destruct t; try discriminate. cbn [fits] in H. cbn [supp] in Hs. cbn [nanfree] in Hn. cbn [real_free] in Hr.
-      cbn [D0 D1 unify cast]. rewrite map_map.
-      assert (E : mapo (cast cleaf t) (map (fun x => unify round32 s' (D0 x)) l) = Some (map D1 l)).
-      { rewrite Forall_forall in IH. rewrite forallb_forall in H, Hs, Hn.
-        assert (F : Forall (fun x => true = true -> cast cleaf t ((fun y => unify round32 s' (D0 y)) x) = Some (D1 x)) l).
-        { apply Forall_forall. intros x Hx _. apply IH; [exact Hx|exact Hr|apply Hn; exact Hx|apply Hs; exact Hx|apply H; exact Hx]. }
-        apply (mapo_map_Forall (fun _ => true) (cast cleaf t) (fun y => unify round32 s' (D0 y)) D1 l F).
-        apply forallb_forall. reflexivity. }
-      rewrite E. reflexivity.
-    - intros l _ s t _ _ Hs _. discriminate.
+      intros l IH t d Hs Hf Hn Hfl E. destruct t; try discriminate.
+      destruct d as [| | | | | | | | | | |xs|]; try discriminate.
+      cbn [D0 dn] in E. inversion E as [E']. clear E. rewrite map_map in E'.
+      cbn [fits] in Hf. cbn [supp] in Hs. cbn [nanfree] in Hn. cbn [flt_free] in Hfl. cbn [D1 cast].
+      assert (G : mapo (cast cleaf t) xs = Some (map D1 l)).
+      { revert xs E' Hfl. induction IH as [|x r Hx _ IHr]; intros xs E' Hfl.
+        - destruct xs; [reflexivity|discriminate].
+        - destruct xs as [|y ys]; [discriminate|]. cbn [map] in E'. inversion E' as [[E1 E2]].
+          cbn [forallb] in Hs, Hf, Hn, Hfl.
+          apply andb_true_iff in Hs. destruct Hs as [Hs1 Hs2]. apply andb_true_iff in Hf. destruct Hf as [Hf1 Hf2].
+          apply andb_true_iff in Hn. destruct Hn as [Hn1 Hn2]. apply andb_true_iff in Hfl. destruct Hfl as [Hl1 Hl2].
+          cbn [mapo map]. fold (mapo (cast cleaf t)).
+          rewrite (Hx t y Hs1 Hf1 Hn1 Hl1 E1), (IHr Hs2 Hf2 Hn2 ys E2 Hl2). reflexivity. }
+      rewrite G. reflexivity.
+    - intros l _ t d Hs _ _ _ _. discriminate.
     - (* struct *)
-      intros fs IH s t Hr Hn Hs H.
-      destruct s as [| | |ss]; try exact (cast_nested _ _ _ ENV (PRow fs) t Hs H).
+      intros fs IH t d Hs Hf Hn Hfl E.
       destruct t as [| | | | | | | | | | | | |ts|]; try discriminate.
-      pose proof Hs as Hs0. cbn [supp] in Hs.
+      destruct d as [| | | | | | | | | | | |gs]; try discriminate.
+      cbn [D0 dn] in E. inversion E as [E']. clear E.
+      cbn [supp] in Hs.
       apply andb_true_iff in Hs. destruct Hs as [Hs Hall]. apply andb_true_iff in Hs. destruct Hs as [Hs _].
       apply andb_true_iff in Hs. destruct Hs as [Hne Hnd].
-      cbn [nanfree] in Hn. cbn [real_free] in Hr.
-      cbn [D0 D1 unify].
-      set (fs' := map (fun kv : ustr * dbval => (fst kv, match lookup (fst kv) ss with
-                                              | Some s' => unify round32 s' (snd kv)
-                                              | None => snd kv end)) (map_snd D0 fs)).
-      assert (Hc : cast cleaf (TStruct ts) (DStruct fs') =
+      cbn [nanfree] in Hn. cbn [flt_free] in Hfl. cbn [D1].
+      assert (Hc : cast cleaf (TStruct ts) (DStruct gs) =
               option_map DStruct ((fix go (ts : list (ustr * sty)) : option (list (ustr * dbval)) :=
                  match ts with
                  | [] => Some []
                  | (k, t') :: r =>
-                     match lookup k fs' with
+                     match lookup k gs with
                      | Some x => match cast cleaf t' x, go r with Some y, Some ys => Some ((k, y) :: ys) | _, _ => None end
                      | None => None
                      end
                  end) ts)) by reflexivity.
       rewrite Hc. clear Hc.
-      match goal with |- option_map DStruct ?a = Some (DStruct ?b) => assert (E : a = Some b); [|rewrite E; reflexivity] end.
-      cbn [fits] in H.
-      assert (G : forall (gs : list (ustr * pyval)) (ts : list (ustr * sty)),
-                 (forall k x, In (k, x) gs -> lookup k fs = Some x /\
-                                            (forall t, fits x t = true -> cast cleaf t (U ss k (D0 x)) = Some (D1 x))) ->
+      match goal with |- option_map DStruct ?a = Some (DStruct ?b) => assert (G0 : a = Some b); [|rewrite G0; reflexivity] end.
+      cbn [fits] in Hf.
+      assert (G : forall (hs : list (ustr * pyval)) (ts : list (ustr * sty)),
+                 (forall k x, In (k, x) hs -> lookup k fs = Some x /\ In (k, x) fs) ->
                  (fix go (fs0 : list (ustr * pyval)) (ts0 : list (ustr * sty)) : bool :=
                     match fs0, ts0 with
                     | [], [] => true
                     | (k, x) :: fr, (k', t') :: tr => ueqb k k' && fits x t' && go fr tr
                     | _, _ => false
-                    end) gs ts = true ->
+                    end) hs ts = true ->
                  (fix go (ts0 : list (ustr * sty)) : option (list (ustr * dbval)) :=
                     match ts0 with
                     | [] => Some []
                     | (k, t') :: r =>
-                        match lookup k fs' with
+                        match lookup k gs with
                         | Some x => match cast cleaf t' x, go r with Some y, Some ys => Some ((k, y) :: ys) | _, _ => None end
                         | None => None
                         end
-                    end) ts = Some (map_snd D1 gs)).
-      { induction gs as [|[k x] gr IHg]; intros ts0 Hin Hf.
+                    end) ts = Some (map_snd D1 hs)).
+      { rewrite Forall_forall in IH. rewrite forallb_forall in Hall, Hn.
+        induction hs as [|[k x] hr IHg]; intros ts0 Hin Hf0.
         - destruct ts0; [reflexivity|discriminate].
         - destruct ts0 as [|[k' t'] tr]; [discriminate|].
-          apply andb_true_iff in Hf. destruct Hf as [Hf Hrest]. apply andb_true_iff in Hf. destruct Hf as [Hk Hfx].
+          apply andb_true_iff in Hf0. destruct Hf0 as [Hf0 Hrest]. apply andb_true_iff in Hf0. destruct Hf0 as [Hk Hfx].
           apply ueqb_eq in Hk. subst k'.
-          destruct (Hin k x (or_introl eq_refl)) as [Hl Hcx].
-          unfold fs'. rewrite lookup_unified, Hl. cbn [option_map]. rewrite (Hcx t' Hfx).
-          fold fs'. rewrite (IHg tr); [reflexivity| |exact Hrest].
+          destruct (Hin k x (or_introl eq_refl)) as [Hl Hinfs].
+          (* the unified struct has the same keys, and field k agrees with D0 x up to dn *)
+          assert (Lk : option_map dn (lookup k gs) = Some (dn (D0 x))).
+          { rewrite <- lookup_dn, E', lookup_dn, lookup_map_snd, Hl. reflexivity. }
+          destruct (lookup k gs) as [y|] eqn:Ly; [|discriminate]. cbn [option_map] in Lk. inversion Lk as [Ey].
+          rewrite (IH (k, x) Hinfs t' y (Hall (k, x) Hinfs) Hfx (Hn (k, x) Hinfs) (lookup_forallb flt_free k gs y Hfl Ly) Ey).
+          rewrite (IHg tr); [reflexivity| |exact Hrest].
           intros k2 x2 H2. apply Hin. right. exact H2. }
-      apply G; [|exact H].
-      intros k x Hin. rewrite Forall_forall in IH. rewrite forallb_forall in Hall, Hn.
-      split.
-      + clear -Hnd Hin. induction fs as [|[k1 x1] r IHr]; [destruct Hin|].
-        cbn [nodup_keys] in Hnd. apply andb_true_iff in Hnd. destruct Hnd as [Hn1 Hn2]. apply negb_true_iff in Hn1.
-        destruct Hin as [Hin|Hin].
-        * inversion Hin; subst. cbn [lookup]. rewrite ueqb_refl. reflexivity.
-        * cbn [lookup]. rewrite (existsb_ueqb_false _ _ _ _ Hn1 Hin). apply IHr; assumption.
-      + intros t Hft. unfold U. destruct (lookup k ss) as [s'|] eqn:L.
-        * apply (IH (k, x) Hin s' t); [exact (lookup_forallb real_free k ss s' Hr L)|apply (Hn (k, x) Hin)|apply (Hall (k, x) Hin)|exact Hft].
-        * exact (cast_nested _ _ _ ENV x t (Hall (k, x) Hin) Hft).
-    - intros kv _ s t _ _ Hs _. discriminate.
+      apply G; [|exact Hf].
+      intros k x Hin. split; [|exact Hin].
+      clear -Hnd Hin. induction fs as [|[k1 x1] r IHr]; [destruct Hin|].
+      cbn [nodup_keys] in Hnd. apply andb_true_iff in Hnd. destruct Hnd as [Hn1 Hn2]. apply negb_true_iff in Hn1.
+      destruct Hin as [Hin|Hin].
+      + inversion Hin; subst. cbn [lookup]. rewrite ueqb_refl. reflexivity.
+      + cbn [lookup]. rewrite (existsb_ueqb_false _ _ _ _ Hn1 Hin). apply IHr; assumption.
+    - intros kv _ t d Hs _ _ _ _. discriminate.
   Qed.
 
   Variable lch : chain lact.
@@ -1251,23 +1353,22 @@ Section ColumnRoundtrip.
   Qed.
 
   Lemma finish_member : forall s t v, real_free s = true -> col_member t v = true ->
-    finish cleaf pleaf vch (Some t) (unify round32 s (D0 v)) = Some (expected v).
+    finish cleaf pleaf vch (Some t) (unify round32 s (lun round32 (D0 v))) = Some (expected v).
   Proof.
     intros s t v Hr Hm. unfold col_member in Hm.
     apply andb_true_iff in Hm. destruct Hm as [Hm Hn]. apply andb_true_iff in Hm. destruct Hm as [Hs Hf].
     unfold finish.
+    pose proof (lun_ok round32 (D0 v) (D0_flt_free v Hn)) as [L1 L2].
+    pose proof (unify_ok round32 (lun round32 (D0 v)) s L1 Hr) as [U1 U2].
     destruct v; try (cbn [supported] in Hs;
-      rewrite (cast_unify _ s t Hr Hn Hs Hf), (to_value_is_std vch VOK), (client_nested _ _ _ ENV _ Hs),
+      rewrite (cast_equiv _ t _ Hs Hf Hn U1 (eq_trans U2 L2)), (to_value_is_std vch VOK), (client_nested _ _ _ ENV _ Hs),
               (expected_not_dec _ Hs); reflexivity).
     destruct t; try discriminate. destruct f as [|n|b e]; [discriminate| |].
-    - cbn [D0 unify cast]. rewrite (c_inf _ _ _ ENV). rewrite (to_value_is_std vch VOK). cbn [client].
+    - cbn [D0 lun unify cast]. rewrite (c_inf _ _ _ ENV). rewrite (to_value_is_std vch VOK). cbn [client].
       rewrite (p_dbl _ _ _ ENV). reflexivity.
-    - assert (E : cast cleaf TDouble (unify round32 s (D0 (PFloat (FFin b e)))) = Some (DDbl (FFin b e))).
-      { cbn [D0]. destruct e.
-        - cbn [unify cast]. apply (c_dbl _ _ _ ENV).
-        - cbn [unify]. destruct s as [|r d| |]; try (cbn [cast]; apply (c_dec _ _ _ ENV)).
-          destruct r, d; try discriminate; cbn [cast]; first [apply (c_dbl _ _ _ ENV) | apply (c_dec _ _ _ ENV)]. }
-      rewrite E. rewrite (to_value_is_std vch VOK). cbn [client]. rewrite (p_dbl _ _ _ ENV). reflexivity.
+    - assert (Hs' : supp (PFloat (FFin b e)) = true) by reflexivity.
+      rewrite (cast_equiv _ TDouble _ Hs' Hf Hn U1 (eq_trans U2 L2)). rewrite (to_value_is_std vch VOK). cbn [D1 client].
+      rewrite (p_dbl _ _ _ ENV). reflexivity.
   Qed.
 
   (** column_roundtrip: every cell of a typed column comes back as promised *)
@@ -1286,14 +1387,18 @@ Section ColumnRoundtrip.
       destruct (Hsn v (or_introl eq_refl)) as [Hs [Hn _]].
       rewrite (lit_top_is_std lch fch LOK FOK), (eval_top v Hs Hn), IH; [reflexivity|].
       intros y Hy. apply Hsn. right. exact Hy. }
-    rewrite E1.
-    assert (Hr : real_free (col_shape (map D0 vs)) = true).
-    { apply col_shape_real_free. apply forallb_forall. intros v Hv. apply (Hsn v Hv). }
-    generalize dependent (col_shape (map D0 vs)). intros sh Hr.
+    rewrite E1. cbv zeta.
+    assert (Hr : real_free (col_shape (map (lun round32) (map D0 vs))) = true).
+    { apply col_shape_real_free. apply forallb_forall. intros y Hy.
+      apply in_map_iff in Hy. destruct Hy as [d [E Hd]]. subst y.
+      apply in_map_iff in Hd. destruct Hd as [v [E Hv]]. subst d.
+      apply (lun_ok round32 (D0 v)). apply D0_flt_free. apply (Hsn v Hv). }
+    generalize dependent (col_shape (map (lun round32) (map D0 vs))). intros sh Hr.
     assert (E2 : forall l, (forall v, In v l -> col_member t v = true) ->
-                 mapo (fun d => finish cleaf pleaf vch (Some t) (unify round32 sh d)) (map D0 l) = Some (map expected l)).
-    { intros l Hl. rewrite mapo_map. induction l as [|v r IH]; [reflexivity|].
-      cbn [mapo map]. fold (mapo (fun x => finish cleaf pleaf vch (Some t) (unify round32 sh (D0 x)))).
+                 mapo (fun d => finish cleaf pleaf vch (Some t) (unify round32 sh d)) (map (lun round32) (map D0 l))
+                 = Some (map expected l)).
+    { intros l Hl. rewrite map_map, mapo_map. induction l as [|v r IH]; [reflexivity|].
+      cbn [mapo map]. fold (mapo (fun x => finish cleaf pleaf vch (Some t) (unify round32 sh (lun round32 (D0 x))))).
       rewrite (finish_member sh t v Hr (Hl v (or_introl eq_refl))), IH; [reflexivity|].
       intros y Hy. apply Hl. right. exact Hy. }
     rewrite (E2 vs); [|intros v Hv; apply (Hsn v Hv)].
@@ -1333,6 +1438,23 @@ Section ColumnUntyped.
       apply (IH (k, x) (or_introl eq_refl)). apply (Hall (k, x) (or_introl eq_refl)).
   Qed.
 
+  Lemma lun_plain : forall v, plainv v = true -> lun round32 (D0 v) = D0 v.
+  Proof.
+    apply (pyval_rect' (fun v => plainv v = true -> lun round32 (D0 v) = D0 v)); try (intros; reflexivity).
+    - intros f H. discriminate.
+    - intros us tz _. destruct tz; reflexivity.
+    - intros l IH H. cbn [plainv] in H. cbn [D0 lun]. rewrite Forall_forall in IH. rewrite forallb_forall in H.
+      assert (E : map (lun round32) (map D0 l) = map D0 l).
+      { rewrite map_map. apply map_ext_in. intros x Hx. apply IH; [exact Hx|apply H; exact Hx]. }
+      rewrite E. f_equal. rewrite map_map. apply map_ext_in. intros x Hx. apply unify_plain. apply H. exact Hx.
+    - intros fs IH H. cbn [plainv] in H. apply andb_true_iff in H. destruct H as [_ Hall].
+      cbn [D0 lun]. f_equal. rewrite Forall_forall in IH. rewrite forallb_forall in Hall.
+      induction fs as [|[k x] r IHr]; [reflexivity|].
+      cbn [map_snd]. fold (@map_snd ustr _ _ D0). fold (@map_snd ustr _ _ (lun round32)).
+      pose proof (IH (k, x) (or_introl eq_refl) (Hall (k, x) (or_introl eq_refl))) as Ex. cbn [snd] in Ex. rewrite Ex.
+      f_equal. apply IHr; intros y Hy; [apply IH|apply Hall]; right; exact Hy.
+  Qed.
+
   (** a column without a CAST (first value None) whose members contain no float at all *)
   Theorem column_untyped : forall vs,
     forallb plainv vs = true ->
@@ -1347,14 +1469,15 @@ Section ColumnUntyped.
       assert (Et : std_lit_top v = std_lit_nested v) by (destruct v; try reflexivity; discriminate).
       rewrite Et, (eval_nested _ _ _ ENV v (plainv_supp v Hp)), IH; [reflexivity|].
       intros y Hy. apply H. right. exact Hy. }
-    rewrite E1. generalize (col_shape (map D0 vs)). intro sh.
+    rewrite E1. cbv zeta. generalize (col_shape (map (lun round32) (map D0 vs))). intro sh.
     assert (E2 : forall l, (forall v, In v l -> plainv v = true) ->
-                 mapo (fun d => finish cleaf pleaf vch None (unify round32 sh d)) (map D0 l) = Some (map expected l)).
-    { intros l Hl. rewrite mapo_map. induction l as [|v r IH]; [reflexivity|].
-      cbn [mapo map]. fold (mapo (fun x => finish cleaf pleaf vch None (unify round32 sh (D0 x)))).
+                 mapo (fun d => finish cleaf pleaf vch None (unify round32 sh d)) (map (lun round32) (map D0 l))
+                 = Some (map expected l)).
+    { intros l Hl. rewrite map_map, mapo_map. induction l as [|v r IH]; [reflexivity|].
+      cbn [mapo map]. fold (mapo (fun x => finish cleaf pleaf vch None (unify round32 sh (lun round32 (D0 x))))).
       pose proof (Hl v (or_introl eq_refl)) as Hp.
-      unfold finish at 1. rewrite (unify_plain v sh Hp), (to_value_is_std vch VOK), (client0_nested _ _ _ ENV v Hp),
-        (expected_not_dec v (plainv_supp v Hp)).
+      unfold finish at 1. rewrite (lun_plain v Hp), (unify_plain v sh Hp), (to_value_is_std vch VOK),
+        (client0_nested _ _ _ ENV v Hp), (expected_not_dec v (plainv_supp v Hp)).
       rewrite IH; [reflexivity|]. intros y Hy. apply Hl. right. exact Hy. }
     rewrite (E2 vs H). rewrite map_map. reflexivity.
   Qed.
@@ -1369,10 +1492,10 @@ Section ColumnUntyped.
     unfold col_pipeline. cbn [map mapo]. rewrite (lit_top_is_std lch fch LOK FOK).
     destruct f as [|n|b e]; [| discriminate |].
     - cbn [std_lit_top std_lit_nested eval]. rewrite (e_nan _ _ _ ENV).
-      cbn [col_shape fold_right shape_of merge unify mapo]. unfold finish.
+      cbn [map lun col_shape fold_right shape_of merge unify mapo]. unfold finish.
       rewrite (to_value_is_std vch VOK). cbn [client]. rewrite (p_flt _ _ _ ENV). reflexivity.
     - cbn [std_lit_top std_lit_nested convert_leaf eval]. rewrite (e_num _ _ _ ENV).
-      destruct e; cbn [col_shape fold_right shape_of merge unify mapo]; unfold finish;
+      destruct e; cbn [map lun col_shape fold_right shape_of merge unify mapo]; unfold finish;
         rewrite (to_value_is_std vch VOK); cbn [client];
         [rewrite (p_dbl _ _ _ ENV)|rewrite (p_dec _ _ _ ENV)]; reflexivity.
   Qed.
